@@ -88,6 +88,23 @@ CHECKS = {
         design_ref='6/C10',
         note='Trusted: the outcome classification in harness/checks/c10.py; allow-list of protocol-assigned shared numbers.',
         technique='TLA+ code point rules evaluated by TLC over exhaustive decode tables of the implementation'),
+    'C01': dict(
+        category='exploration',
+        text='Every object parsed from the corpus, every nested parsable value, and field-by-field variations built through '
+             'the class constructors (every enum member, boundary integers, empty/long strings and vectors, aware datetimes '
+             'with offsets, optional fields) is composed and parsed back; TLC evaluates ParseApi.RoundTrip on every observation.',
+        design_ref='6/C01',
+        note='Finite exploration over constructible objects; equality = projection equality; objects whose compose() raises a '
+             'documented error have no wire form. Recorded defects are listed in known_findings.json by (class, clause, field).',
+        technique='TLA+ round-trip contract evaluated by TLC on traces of constructed objects'),
+    'C05': dict(
+        category='exploration',
+        text='Every accepted corpus input, every accepted mutant of it and blind text respellings are parsed, composed, parsed '
+             'and composed again; TLC evaluates ParseApi.Canonical (compose succeeds, canonical form accepted completely, same '
+             'meaning, stable in one step) on every observation.',
+        design_ref='6/C05',
+        note='Finite exploration; recorded defects listed in known_findings.json by (class, clause).',
+        technique='TLA+ canonical-form contract evaluated by TLC on traces of accepted inputs'),
 }
 
 NOT_APPLICABLE = {}
